@@ -18,6 +18,7 @@ type Case struct {
 	D    string  `json:"d"`
 	Amps []int64 `json:"amps"`
 	Pad  int     `json:"pad,omitempty"` // the amplitudes are repeated cyclically up to this buffer length
+	Fix  int     `json:"fix,omitempty"` // source construction order, see convtab.Entry.NewBlockFix
 }
 
 var Pairs = convtab.Select("SignedAsSigned", "SignedAsUnsigned", "UnsignedAsSigned", "UnsignedAsUnsigned")
@@ -44,12 +45,14 @@ type Runner struct {
 	rt    []int64
 }
 
-func NewRunner(e *convtab.Entry) *Runner {
-	r := &Runner{E: e, blk: e.NewBlock()}
+func NewRunner(e *convtab.Entry) *Runner { return NewRunnerFix(e, 0) }
+
+func NewRunnerFix(e *convtab.Entry, fix int) *Runner {
+	r := &Runner{E: e, blk: e.NewBlockFix(fix)}
 	if e.D.Bits > e.S.Bits {
 		r.backs = Backs(e)
 		for _, b := range r.backs {
-			r.bblk = append(r.bblk, b.NewBlock())
+			r.bblk = append(r.bblk, b.NewBlockFix(fix))
 		}
 	}
 	return r
@@ -103,13 +106,13 @@ func Check(c *Case) (res kit.Result) {
 		}
 	}
 	var msg string
-	if c.Pad < 0 || c.Pad > 1<<20 {
+	if c.Pad < 0 || c.Pad > 1<<20 || c.Fix < 0 || c.Fix > 2 {
 		return
 	}
 	if c.Pad > len(c.Amps) {
 		res.Class("paddedToLongBuffer")
 	}
-	if p, v := kit.Try(func() { msg = NewRunner(e).Run(kit.PadInts(c.Amps, c.Pad)) }); p {
+	if p, v := kit.Try(func() { msg = NewRunnerFix(e, c.Fix).Run(kit.PadInts(c.Amps, c.Pad)) }); p {
 		res.Failf("%s panicked: %v", e, v)
 		return
 	}
@@ -137,6 +140,7 @@ func FP(c *Case) uint64 {
 	h.Str(c.D)
 	h.Int(len(c.Amps))
 	h.Int(c.Pad)
+	h.Int(c.Fix)
 	for _, a := range c.Amps {
 		h.U64(uint64(a))
 	}
@@ -152,6 +156,7 @@ func Gen(t *rapid.T) *Case {
 	}
 	c := &Case{S: e.S.Name, D: e.D.Name}
 	c.Pad = kit.GenPad(t)
+	c.Fix = rapid.IntRange(0, 2).Draw(t, "fix")
 	n := rapid.IntRange(1, 24).Draw(t, "n")
 	for i := 0; i < n; i++ {
 		c.Amps = append(c.Amps, kit.GenAmp(t, e.S.Bits, BAmps[e.S.Bits]))
